@@ -160,7 +160,7 @@ func genContent(seed int64, n int) []byte {
 }
 
 func drawTree(t *rapid.T, depth, chunk int) *node {
-	names := []string{"a", "b.txt", ".hidden", "ünï", "with space", "z"}
+	names := []string{"a", "b.txt", ".hidden", "ünï", "with space", ".config", "z"}
 	var mk func(d int, name string) *node
 	mk = func(d int, name string) *node {
 		if d < depth && rapid.IntRange(0, 2).Draw(t, "isdir") == 0 {
@@ -178,7 +178,7 @@ func drawTree(t *rapid.T, depth, chunk int) *node {
 			sort.Slice(n.children, func(i, j int) bool { return n.children[i].name < n.children[j].name })
 			return n
 		}
-		sizes := []int{0, 1, chunk - 1, chunk, chunk + 1, 3*chunk + rapid.IntRange(0, chunk-1).Draw(t, "r"), 7 * chunk}
+		sizes := []int{0, 1, chunk - 1, chunk, chunk + 1, 3*chunk + rapid.IntRange(0, chunk-1).Draw(t, "r"), 7 * chunk, 7 * chunk, 12*chunk + 3}
 		sz := rapid.SampledFrom(sizes).Draw(t, "size")
 		return &node{name: name, content: genContent(int64(rapid.IntRange(0, 1<<30).Draw(t, "seed")), sz)}
 	}
@@ -454,7 +454,7 @@ func TestAdd(t *testing.T) {
 		if ic.cidV == 1 {
 			ic.hash = rapid.SampledFrom([]string{"sha2-256", "sha2-512", "blake2b-256"}).Draw(t, "hash")
 		}
-		many := rapid.IntRange(0, 150).Draw(t, "manylinks") == 0
+		many := rapid.IntRange(0, 200).Draw(t, "manylinks") == 137
 		var top *node
 		wrap := false
 		if many {
@@ -509,7 +509,7 @@ func TestAdd(t *testing.T) {
 			cluster.allocs = append(cluster.allocs, a)
 		}
 		if shard {
-			po.ShardSize = uint64(rapid.SampledFrom([]int{400, 700, 1500, 4000, 100000}).Draw(t, "shardsize"))
+			po.ShardSize = uint64(rapid.SampledFrom([]int{350, 400, 700, 700, 1500, 4000, 100000}).Draw(t, "shardsize"))
 			if many {
 				po.ShardSize = 100 << 20
 			}
